@@ -38,7 +38,7 @@ TREE0 = {
 }
 
 LETTERS = ["EA", "EB", "CF", "MF", "MD", "NS", "RN"]          # the 7-letter alphabet of the exhaustive part
-EXTRA_LETTERS = ["CD", "IG", "EMPTY", "RMX", "OVW", "ALIAS", "LEAF"]   # random stream only
+EXTRA_LETTERS = ["CD", "IG", "EMPTY", "MIX", "RMX", "OVW", "ALIAS", "LEAF"]   # random stream only
 
 
 # ------------------------------------------------------------------------------------- templates
@@ -49,6 +49,39 @@ def _first(snap, candidates, default):
     return default
 
 
+def preview(change):
+    """what a client showing a change to the user asks of it"""
+    change.get_changed_resources()
+    try:
+        change.get_description()
+    except Exception:
+        pass
+
+
+def mkset(desc, children):
+    """a ChangeSet built incrementally, looked at (resources, description) after every added child, as a
+    client that previews while it builds does"""
+    from rope.base import change as ch
+    cs = ch.ChangeSet(desc)
+    preview(cs)
+    for c in children:
+        cs.add_change(c)
+        preview(cs)
+    return cs
+
+
+def leaf_changes(change):
+    from rope.base import change as ch
+    if isinstance(change, ch.ChangeSet):
+        return [l for c in change.changes for l in leaf_changes(c)]
+    return [change]
+
+
+def leaf_resources(change):
+    """the resources of a change, collected from its leaves (never from a ChangeSet's own answer)"""
+    return [r for l in leaf_changes(change) for r in l.get_changed_resources() if r is not None]
+
+
 def resolve(letter, snap, tag, project):
     """letter -> (built rope Change, how).  Deterministic in (letter, tree, tag)."""
     from rope.base import change as ch
@@ -57,10 +90,7 @@ def resolve(letter, snap, tag, project):
     afile = _first(snap, [AFILE, "d/" + AFILE, "e/" + AFILE], AFILE)
 
     def CS(*children):
-        cs = ch.ChangeSet(desc)
-        for c in children:
-            cs.add_change(c)
-        return cs
+        return mkset(desc, children)
 
     if letter == "EA":
         return CS(ch.ChangeContents(project.get_file(afile), "a%d\n" % tag))
@@ -78,18 +108,18 @@ def resolve(letter, snap, tag, project):
         src, dst = ("d", "e") if folder == "d" else ("e", "d")
         return CS(ch.MoveResource(project.get_folder(src), dst))
     if letter == "NS":
-        inner = ch.ChangeSet("cs%d" % (tag * 100 + 1))
-        inner.add_change(ch.CreateResource(project.get_file(NFOLDER + "/q.txt")))
-        inner.add_change(ch.ChangeContents(project.get_file(NFOLDER + "/q.txt"), "Q%d\n" % tag))
-        mid = ch.ChangeSet("cs%d" % (tag * 100 + 2))
-        mid.add_change(ch.CreateFolder(project.root, NFOLDER))
-        mid.add_change(inner)
-        return CS(ch.ChangeContents(project.get_file(afile), "n%d\n" % tag), mid)
+        inner = mkset("cs%d" % (tag * 100 + 1),
+                      [ch.CreateResource(project.get_file(NFOLDER + "/q.txt")),
+                       ch.ChangeContents(project.get_file(NFOLDER + "/q.txt"), "Q%d\n" % tag)])
+        mid = mkset("cs%d" % (tag * 100 + 2), [ch.CreateFolder(project.root, NFOLDER), inner])
+        return CS(ch.ChangeContents(project.get_file(afile), "n%d\n" % tag), mid,
+                  ch.ChangeContents(project.get_file(folder + "/b.txt"), "N%d\n" % tag))
     if letter == "RN":
         from rope.refactor.rename import Rename
         src, new = ("m.py", "k") if "m.py" in snap else ("k.py", "m")
         changes = Rename(project, project.get_resource(src)).get_changes(new)
         changes.description = desc           # the identity tag seen by the model
+        preview(changes)
         return changes
     if letter == "CD":
         return CS(ch.CreateFolder(project.root, "e" if folder == "d" else "d"))
@@ -97,6 +127,10 @@ def resolve(letter, snap, tag, project):
         return CS(ch.ChangeContents(project.get_file("z.pyc"), "z%d" % tag))
     if letter == "EMPTY":
         return CS()
+    if letter == "MIX":
+        # one set touching an ignored and an ordinary file (the ordinary one added last)
+        return CS(ch.ChangeContents(project.get_file("z.pyc"), "y%d" % tag),
+                  ch.ChangeContents(project.get_file(afile), "m%d\n" % tag))
     if letter == "RMX":
         target = _first(snap, [folder + "/" + XFILE, "c.txt", afile], afile)
         return CS(ch.ChangeContents(project.get_file(folder + "/b.txt"), "r%d\n" % tag),
@@ -153,12 +187,25 @@ def run_session(tree, limit, script, keep_objects=False):
     try:
         L10.populate(root, tree)
         fsc = L10.FaultyFS()
-        project = Project(root, fscommands=fsc, ropefolder=None, max_history_items=limit)
+        # sessions with a "reopen" step keep the project's data files (the saved history) in .ropeproject
+        persist = any(op and op[0] == "reopen" for op in script)
+
+        def open_project(lim):
+            if persist:
+                return Project(root, fscommands=fsc, ropefolder=".ropeproject", save_history=True, max_history_items=lim)
+            return Project(root, fscommands=fsc, ropefolder=None, max_history_items=lim)
+
+        def snapshot():
+            sn = L10.snapshot(root)
+            return {p: v for p, v in sn.items() if not (p == ".ropeproject" or p.startswith(".ropeproject/"))}
+
+        ses.persist = persist
+        project = open_project(limit)
         hist = project.history
         ses.max_undos = hist.max_undos
         ses.patterns = list(project.prefs.get("ignored_resources") or [])
         tag = 0
-        snap = L10.snapshot(root)
+        snap = snapshot()
         for op in script:
             st = Step()
             st.pre_tree = snap
@@ -178,6 +225,15 @@ def run_session(tree, limit, script, keep_objects=False):
             returned = None
             fsc.reset(armed=None, op=op[0])
             handle = taskhandle.TaskHandle("C11")
+            # optional last element {"stop": j}: handle.stop() is called during the j-th observer notification
+            st.stop = None
+            if op and isinstance(op[-1], dict):
+                st.stop = op[-1].get("stop")
+                op = op[:-1]
+            stopper = L10.Stopper(handle, st.stop)
+            handle.add_observer(stopper)
+            for c in list(hist.undo_list) + list(hist.redo_list):
+                preview(c)
             if op[0] == "do":
                 tag += 1
                 try:
@@ -192,7 +248,8 @@ def run_session(tree, limit, script, keep_objects=False):
                     st.build_error = repr(e)[:200]
                 fsc.reset(armed=None, op="do")
                 if st.build_error is None:
-                    for res in built.get_changed_resources():
+                    preview(built)
+                    for res in leaf_resources(built):
                         ses.paths.add(res.path)
                         if project.is_ignored(res):
                             ses.ignored.add(res.path)
@@ -226,6 +283,12 @@ def run_session(tree, limit, script, keep_objects=False):
                         returned = hist.redo(_foreign_change(project), task_handle=handle)
                 except Exception as e:
                     exc = e
+            elif op[0] == "reopen":
+                # close the project (History.write saves the lists) and open it again (History._load_history)
+                cur = hist.max_undos
+                project.close()
+                project = open_project(cur)
+                hist = project.history
             elif op[0] == "limit":
                 # the preference is lowered / raised between two operations; History.max_undos reads it each time
                 st.sel = int(op[1])
@@ -233,6 +296,8 @@ def run_session(tree, limit, script, keep_objects=False):
             else:
                 raise ValueError(op)
             st.limit_now = hist.max_undos
+            st.notifications = stopper.n
+            st.stopped_at = stopper.stopped_at
             st.raised = exc is not None
             st.codes = exc_codes(exc) if exc is not None else []
             st.exc_repr = repr(exc)[:200] if exc is not None else None
@@ -243,7 +308,7 @@ def run_session(tree, limit, script, keep_objects=False):
             st.unmodelled = fsc.unmodelled
             st.unknown_phase = fsc.unknown_phase
             fsc.reset()
-            snap = L10.snapshot(root)
+            snap = snapshot()
             st.post_tree = snap
             st.post_undo_objs = list(hist.undo_list)
             st.post_redo_objs = list(hist.redo_list)
@@ -263,8 +328,12 @@ def run_session(tree, limit, script, keep_objects=False):
                 st.op = ["undo", st.sel, st.drop]
             elif op[0] == "limit":
                 st.op = ["limit", st.sel]
+            elif op[0] == "reopen":
+                st.op = ["reopen"]
             else:
                 st.op = ["redo", st.sel]
+            if st.stop is not None:
+                st.op = st.op + [{"stop": st.stop}]
             ses.steps.append(st)
         if not keep_objects:
             for st in ses.steps:
@@ -417,6 +486,7 @@ class Printer:
     definitions (sessions of the exhaustive family share most of them), the cases refer to the names."""
 
     def __init__(self):
+        self.ignored = set()
         self.defs = []
         self.names = {}
 
@@ -471,7 +541,7 @@ class Printer:
         return self._name("tr", "list (list N * node)", g_list(items))
 
     def g_op(self, st):
-        if st.kind == "limit":
+        if st.kind in ("limit", "reopen"):
             return "(ORedo None)"
         if st.kind == "do":
             return "(ODo %s)" % self.g_change(st.change)
@@ -482,15 +552,20 @@ class Printer:
 
     def g_step(self, st):
         deps = [d for d in (st.deps or [])]
-        irrev = g_opt(g_bool(st.py_irrev)) if (st.kind != "limit" and st.unknown_phase == 0 and not st.raised) else "None"
+        # writes to ignored resources go through rope's direct file-system commands, not through the observed ones
+        blind = bool(self.ignored) and (st.kind != "do" or any(p in self.ignored for p in spec_paths(st.change)))
+        irrev = (g_opt(g_bool(st.py_irrev))
+                 if (st.kind not in ("limit", "reopen") and st.unknown_phase == 0 and not st.raised and not blind) else "None")
         setlim = g_opt(g_nat(min(st.sel, 4000))) if st.kind == "limit" else "None"
-        return ("{| t_setlim := " + setlim + "; t_op := %s; o_raised := %s; o_err := %s; o_tree := %s; o_undo := %s; o_redo := %s; o_deps := %s; "
+        stop = g_opt(None if getattr(st, "stop", None) is None else g_nat(min(st.stop, 4000)))
+        return ("{| t_reopen := " + g_bool(st.kind == "reopen") + "; t_setlim := " + setlim + "; t_stop := " + stop + "; t_op := %s; o_raised := %s; o_err := %s; o_tree := %s; o_undo := %s; o_redo := %s; o_deps := %s; "
                 "o_irrev := %s |}" % (
                     self.g_op(st), g_bool(st.raised), g_list([g_N(c) for c in st.codes]), self.g_tree(st.post_tree),
                     self.g_changes(st.post_undo), self.g_changes(st.post_redo),
                     g_list([g_nat(d if d >= 0 else 4999) for d in deps]), irrev))
 
     def g_case(self, ses):
+        self.ignored = set(ses.ignored)
         steps = [st for st in ses.steps if st.build_error is None]
         segs = sorted(set(x for p in ses.paths for x in p.split("/") if x))
         spell = g_list([g_pair(g_N(SEG_ID[x]), self.g_bytes(x) if len(x) > 2 else g_list([g_N(ord(ch)) for ch in x]))
